@@ -216,6 +216,22 @@ class Generator:
         def add_edit(s, e, rep, tag):
             edits.append((s, e, rep, tag))
 
+        rbstr_on = any(rw[0] == 'RBSTR' for rw in u.rewrites)
+
+        def text_of(s, e):
+            """source text of [s,e); when RBSTR is active, byte-string literals inside it are already in array-literal form
+            (so that an enclosing RCALL/R7 replacement carries the same RBSTR rewrite instead of overlapping with it)"""
+            if not rbstr_on:
+                return src[s:e].decode()
+            out = b''
+            pos = s
+            for b in sorted(fn['bytestrs'], key=lambda b: b['span'][0]):
+                if inside(b['span'], (s, e)):
+                    out += src[pos:b['span'][0]] + ('(&[' + ', '.join(f'{x}u8' for x in b['bytes']) + '])').encode()
+                    pos = b['span'][1]
+            out += src[pos:e]
+            return out.decode()
+
         for rw in u.rewrites:
             kind = rw[0]
             if kind == 'R1':
@@ -252,8 +268,8 @@ class Generator:
                 n = 0
                 for b in fn['binops']:
                     if inside(b['span'], span) and normtok(src[b['span'][0]:b['span'][1]].decode()) == want:
-                        lhs = src[b['lhs'][0]:b['lhs'][1]].decode()
-                        rhs = src[b['rhs'][0]:b['rhs'][1]].decode()
+                        lhs = text_of(b['lhs'][0], b['lhs'][1])
+                        rhs = text_of(b['rhs'][0], b['rhs'][1])
                         add_edit(b['span'][0], b['span'][1], f'{func}({lhs}, {rhs})', 'R7')
                         n += 1
                 if n == 0:
@@ -265,8 +281,8 @@ class Generator:
                 n = 0
                 for c in fn['calls']:
                     if inside(c['span'], span) and c['method'] == meth and normtok(src[c['recv'][0]:c['recv'][1]].decode()) == recv_want:
-                        full = src[c['span'][0]:c['span'][1]].decode()
-                        recv = src[c['recv'][0]:c['recv'][1]].decode()
+                        full = text_of(c['span'][0], c['span'][1])
+                        recv = text_of(c['recv'][0], c['recv'][1])
                         rest = full[len(recv):]
                         m = re.match(r'\s*\.\s*' + re.escape(meth) + r'\s*(::<[^>]*>)?\s*\(', rest, re.S)
                         if not m:
@@ -285,7 +301,7 @@ class Generator:
                 n = 0
                 for b in fn['bytestrs']:
                     if inside(b['span'], span):
-                        add_edit(b['span'][0], b['span'][1], '&[' + ', '.join(f'{x}u8' for x in b['bytes']) + ']', 'RBSTR')
+                        add_edit(b['span'][0], b['span'][1], '(&[' + ', '.join(f'{x}u8' for x in b['bytes']) + '])', 'RBSTR')
                         n += 1
                 applied.append(f'RBSTR x{n}')
             elif kind == 'RXPR':
@@ -360,6 +376,8 @@ class Generator:
                 raise GenError(f'lost-anchor: at-stmt "{prefix}" #{k} in {u.fnpath}')
             add_edit(c[k]['span'][0], c[k]['span'][0], ('SPLICE', text), 'at')
 
+        # an RBSTR edit inside a larger replacement is already carried by that replacement (text_of)
+        edits = [x for x in edits if not (x[3] == 'RBSTR' and any(y is not x and y[3] != 'RBSTR' and y[0] <= x[0] and x[1] <= y[1] and not isinstance(y[2], tuple) for y in edits))]
         edits.sort(key=lambda e: (e[0], e[1]))
         for a, b in zip(edits, edits[1:]):
             if b[0] < a[1]:
